@@ -129,6 +129,17 @@ CHECKS["C20"] = dict(
          "return_multiple, annualized_return (all input forms), volatility, sharpe_ratio, alpha_beta and performance_metrics at 1e-9 "
          "relative (annualisation and volatility through their defining relations, exactly)")
 
+CHECKS["C14"] = dict(
+    technique="TLA+ spec Squeeth.tla / SqueethTwap.tla (vault state machine, relational geometric TWAP, reduce-debt and liquidation) "
+              "model-checked by TLC (operation graph, simulated back-tests, DEV switches); every graph edge replayed into the real "
+              "SqueethMarket, simulated back-tests run through the real Actuator, observed TWAP values validated by the trace spec "
+              "Trace_SqueethTwap",
+    design="3/C14",
+    text="TLC explores vault operation sequences with amounts computed at each state's limits (exact mint/withdraw limit, +-1e-6, the "
+         "0.5 ETH line, mints landing exactly on 1.5x at another price) with and without LP collateral and checks accepted-only-if-safe, "
+         "safe-stays-safe for accepted and raised calls, exact movement, liquidation iff below 1.5x and its amounts; every edge is replayed "
+         "by direct calls, 10-bar back-tests run through Actuator.run with live TWAP, each get_twap_price validated relationally by TLC")
+
 NOT_YET = "check not built yet in this round (see DESIGN.md section 3 for the planned spec clauses)"
 
 
